@@ -1,3 +1,3 @@
 SPECIFICATION Spec
 INVARIANTS TypeOK Quiescent BodyOnce UnstartedNeverRuns ArgsFreedOnce FrameFreedOnce BalanceZeroAtEnd
-  ResolveBeforeDestroy DeliveredToBoundOnly ObserveReady ClaimedPromiseLeavesUnstarted JoinReturns CleanEnd CallbackOnce PayloadIntact
+  ResolveBeforeDestroy DeliveredToBoundOnly ObserveReady ClaimedPromiseLeavesUnstarted JoinReturns CleanEnd CallbackOnce PayloadIntact ReferentIntact
